@@ -100,6 +100,8 @@ class Mon:
         self.ns_over: dict[str, Any] | None = None  # assign accepted although own size > limit
         self.ns_early: dict[str, Any] | None = None  # error raised although own size <= limit
         self.ns_raised = 0
+        self.rebinds = 0  # assignments to a name that was already bound in that context
+        self.rebinds_nil = 0  # ... from or to nil
         self.assign_depths: set[int] = set()  # copy depths of the contexts that were assigned to
         self.copy_snap: dict[int, tuple[Any, int]] = {}  # child context -> size of the parent chain when copied
 
@@ -511,6 +513,10 @@ def install() -> None:
         m = MON
         if m is None:
             return o_assign(self, key, val)
+        if key in self.locals:
+            m.rebinds += 1
+            if self.locals[key] is None or val is None:
+                m.rebinds_nil += 1
         try:
             o_assign(self, key, val)
         except LocalNamespaceLimitError:
